@@ -26,7 +26,7 @@ func compiled(p string) *regexp.Regexp {
 	return re
 }
 
-var unitBaseName = map[string]string{"bytes": "B", "ns": "ns", "s": "s", "chars": "chars", "pct": "%"}
+var unitBaseName = map[string]string{"bytes": "B", "ns": "ns", "s": "s", "chars": "chars", "pct": "%", "dbytes": "B", "dsec": "s"}
 
 // unitString renders n in a unit set with one larger unit when possible.
 func unitString(r *wk.Rand, units string, n int64) (string, bool) {
@@ -45,6 +45,10 @@ func unitString(r *wk.Rand, units string, n int64) (string, bool) {
 		ms = []m{{int64(time.Second), "s"}, {int64(time.Millisecond), "ms"}}
 	case "s":
 		ms = []m{{3600, "H"}, {60, "m"}}
+	case "dbytes":
+		ms = []m{{1000000, "MB"}, {1000, "kB"}}
+	case "dsec":
+		ms = []m{{10000, "H"}, {100, "m"}}
 	}
 	base := unitBaseName[units]
 	if len(ms) > 0 && r.Bool() {
